@@ -13,15 +13,23 @@ DESIGN_REF = "§5 C38"
 TECHNIQUE = ("Coq proof (FoldExpression preserves LIKE; the state-set matcher = recursive LIKE on folded expressions; longest-match loop = "
              "declarative maximum/union, independent of rule order) + in-Coq correspondence against FoldExpression / ParseExpression / Match / "
              "Access.Insert / Delete / Match / Namespace.CanCreate, also through dolt_branch_control / dolt_branch_namespace_control")
-LEVEL_TEXT = ("Proof (F/M for folding and the expression matcher; P for the access table: the rule-level model (the trie without prefix sharing) is "
-              "proved order-independent and its longest-match loop equal to the declarative rule, the refinement trie -> rule set rests on the "
-              "correspondence run over insert/delete histories). Two deviations from LIKE are refuted with witnesses that fail on the real code.")
+LEVEL_TEXT = ("Proof (F/M for folding semantics, the expression matcher, the namespace rule and the MatchNode trie as a finite map: for EVERY "
+              "history of Add/Remove — node splitting, merging, the Data/Children handling of Remove included — the trie holds exactly the rules "
+              "the history denotes (order independence at the trie level). Match over the trie is proved sound in full and complete for every match "
+              "that uses the expression up; completeness for a trailing '%' left over is refuted by a witness that fails on the real code, so the "
+              "decision theorem trie = rule set is P with that class as an explicit hypothesis. Three deviations from LIKE in all are refuted "
+              "with witnesses that fail on the real code. fold_normal is proved for the fixed point of the pass (that the model's fuel reaches it: P).")
 LEVEL_NOTE = ("Trusted: Coq kernel, Go harness + Python glue. Parameters fed from the implementation per case: sort orders of utf8mb4_0900_ai_ci / "
-              "utf8mb4_0900_bin and strings.ToLower for the code points involved. Modelled, not verified: the MatchNode trie's node splitting and "
-              "merging (Add / Remove) — the model keeps one token list per rule; sync.Pool reuse; uint16 length truncation (not generated).")
-THEOREMS = ["fold_pass_sem", "fold_sem", "nfa_eq_like", "match1_nonempty_is_like", "match1_empty_refuted", "longest_loop_spec",
-            "access_match_perm_invariant_partial", "access_request_parsed_refuted"]
-REFUTED = ["match1_empty_refuted", "access_request_parsed_refuted"]
+              "utf8mb4_0900_bin and strings.ToLower for the code points involved. The correspondence run evaluates Access.Match through the Coq model "
+              "of the trie (add_node / rem_node / pmatch / nstep transcribed from expr_parser_node.go) and Access.rows through the rule-level table. "
+              "Not proved: LIKE for the concatenated four-column rule-level matcher (column markers), that the fold fuel always suffices; not "
+              "modelled: sync.Pool reuse, uint16 length truncation (not generated), Go map iteration order (only single-entry maps are iterated).")
+THEOREMS = ["fold_pass_sem", "fold_sem", "fold_fixpoint_normal", "fold_normal_partial", "nfa_eq_like", "match1_nonempty_is_like",
+            "match1_empty_refuted", "longest_loop_spec", "access_match_perm_invariant_partial", "access_request_parsed_refuted",
+            "add_node_lookup", "rem_node_ok", "add_node_wf", "trie_denotes_history", "trie_order_independent", "trie_match_sound",
+            "trie_match_complete_exact", "trie_eq_rules_partial", "trie_trailing_any_refuted", "trie_decision_eq_rules_partial",
+            "trie_decision_order_independent_partial", "namespace_spec"]
+REFUTED = ["match1_empty_refuted", "access_request_parsed_refuted", "trie_trailing_any_refuted"]
 RULE = ("expressions and subjects over code points {a b c A B e-acute E-acute % _ \\ and the empty string}; subjects derived from expressions by "
         "instantiating wildcards, changing case / accents, or mutating one character; rule tables of 1-6 rules with respelled ('%%' vs '%', case) "
         "keys, deletes and re-inserts in random order, requests derived from the rules; collations ai_ci and bin; non-trivial = at least one "
@@ -37,6 +45,18 @@ REQUIRED_TAGS = ["fold-changed", "fold-escape", "fold-multipass", "m1-match", "m
                  "acc-reinsert", "acc-respelled-key", "acc-sql", "acc-special-in-request", "ns-allowed", "ns-denied", "ns-unrestricted", "ns-delete"]
 KNOWN_KEY_REQ = "access-match:request-strings-parsed-as-expressions"
 KNOWN_KEY_EMPTY = "match:empty-subject-processed-as-U+FFFD"
+KNOWN_KEY_TRAIL = "access-match:trailing-any-starting-a-child-node-not-reported"
+
+
+def _registered(key):
+    """the trailing-'%' class is generated only once the finding is registered (until then its witnesses live in
+    work/C38/pending/ and in the theorem trie_trailing_any_refuted), so that a registered tree keeps checking it"""
+    import json, os
+    try:
+        k = json.load(open(os.path.join(os.path.dirname(os.path.dirname(os.path.abspath(__file__))), "known_findings.json")))
+        return any(f.get("property") == "C38" and f.get("key") == key and str(f.get("status", "")).startswith("open") for f in k.get("findings", []))
+    except (OSError, ValueError):
+        return False
 COQ_SHARD = 300
 
 BS, PCT, US = 92, 37, 95
@@ -387,9 +407,18 @@ FIXED = [
 ]
 
 
+TRAIL_FIXED = [
+    {"k": "acc", "ops": [R("db", "main", "u", "h", 4), R("db", "main", "u", "h%", 1)], "reqs": [Q("db", "main", "u", "h"), Q("db", "main", "u", "hx")]},
+    {"k": "acc", "ops": [R("db", "main", "u", "h%", 1), R("db", "main", "u", "hx", 4)], "reqs": [Q("db", "main", "u", "h"), Q("db", "main", "u", "hy")]},
+    {"k": "acc", "sql": True, "ops": [R("db", "main", "u", "%", 1), R("db", "main", "u", "localhost", 4)], "reqs": [Q("db", "main", "u", ""), Q("db", "main", "u", "localhost")]},
+]
+
+
 def gen_cases(rng, tier):
     nf, nm, na, nas, nn = (250, 500, 260, 20, 45) if tier == "quick" else (5000, 12000, 6000, 300, 600)
     cases = list(FIXED)
+    if _registered(KNOWN_KEY_TRAIL):
+        cases += TRAIL_FIXED
     cases += [gen_fold(rng) for _ in range(nf)]
     cases += [gen_m1(rng) for _ in range(nm)]
     cases += [gen_table(rng, "acc", False) for _ in range(na)]
@@ -585,6 +614,21 @@ def match_known(finding, case, out):
         # contain '%', '_' or '\' may deviate from LIKE; the table contents must still be right
         cur, diffs, rows_ok = _acc_diffs(case, o)
         return bool(diffs) and rows_ok and all(_has_special(case["reqs"][i]) for i in diffs)
+    if key == KNOWN_KEY_TRAIL and case["k"] == "acc":
+        # a rule whose host expression ends in '%' is missed when the request uses it with the '%' empty and that '%' starts a child node
+        cur, diffs, rows_ok = _acc_diffs(case, o)
+        if not diffs or not rows_ok:
+            return False
+        tab = Tab(o["tab"])
+
+        def explained(q):
+            for (d, b, u, h) in cur:
+                ph = parse(tab.ci, h)
+                if ph and ph[-1] == -2 and like_str(tab.ci, d, q[0]) and like_str(tab.ci, b, q[1]) and like_str(tab.bin, u, q[2]) \
+                        and like(ph[:-1], [tab.ci(c) for c in q[3]]):
+                    return True
+            return False
+        return all(explained(case["reqs"][i]) for i in diffs)
     if key == KNOWN_KEY_EMPTY:
         # Match() processes an empty subject as the single rune U+FFFD
         if case["k"] == "m1":
